@@ -20,8 +20,45 @@ from .. import ident_impl as I
 PROPERTY = "C14"
 DRIVER = "drv_ident"
 THEOREMS = [
+    "C14.delimit_roundtrip",
+    "C14.quote_roundtrip_counterexample",
+    "C14.quote_roundtrip_partial",
+    "C14.needs_quotes_counterexample",
+    "C14.needs_quotes_partial",
+    "C14.literal_roundtrip",
+    "C14.raw_literal_roundtrip",
+    "C14.stmt_dropColumn",
+    "C14.stmt_renameTable",
+    "C14.stmt_addColumn",
+    "C14.stmt_columnNullable",
+    "C14.stmt_columnType",
+    "C14.stmt_columnName",
+    "C14.stmt_columnDefault",
+    "C14.stmt_columnComment_postgresql",
+    "C14.stmt_identity",
+    "C14.stmt_mysqlAlterDefault",
+    "C14.stmt_mysqlModify",
+    "C14.stmt_mysqlChange",
+    "C14.good_iff",
+    "C14.columnComment_oracle_counterexample",
+    "C14.mssql_literal_counterexample",
+    "C14.stmt_mssql_columnName_partial",
+    "C14.percent_counterexample",
+    "C14.tab_counterexample",
 ]
-PARTIAL = {}
+PARTIAL = {
+    "C14.quote_roundtrip_partial": "full statement (quote_roundtrip_statement) fails on postgresql/mysql/mariadb for names containing '%' "
+    "(written '%%' in --sql scripts, finding C14-PERCENT); C14.delimit_roundtrip is the unconditional theorem about delimiter doubling",
+    "C14.needs_quotes_partial": "names ending in a newline excluded (SQLAlchemy's LEGAL_CHARACTERS '$' quirk)",
+    "C14.stmt_*": "every stmt_ theorem is universally quantified over names/schemas/opaque texts/reserved-word predicates but assumes "
+    "NameOK (non-empty, no '%' on the %-doubling dialects, no TAB, no trailing newline, not quoted_name(quote=False)) and okText for "
+    "the SQLAlchemy-rendered texts; it speaks about `compiled statement ++ command terminator`, the TAB/strip post-processing of "
+    "DefaultImpl._exec is covered by the correspondence only (tab_counterexample shows it matters exactly for TAB)",
+    "C14.columnComment_oracle_counterexample": "F6: no positive theorem for oracle COMMENT ON COLUMN until the visitor quotes/qualifies",
+    "C14.stmt_mssql_columnName_partial": "F7 partial: sp_rename '<table>.<column>', <new>, 'COLUMN' proved for all names without a single "
+    "quote in the schema/table/column; the analogous partials for sp_rename of a table, _ExecDropConstraint and _ExecDropFKConstraint "
+    "are not proved (correspondence + spec-on-implementation only); same for MySQL DROP CHECK/CONSTRAINT/FOREIGN KEY/INDEX",
+}
 TRUSTED = [
     "SQLAlchemy's rendering of types, server defaults, comment literals and column specifications (opaque texts passed to the model; "
     "checked to be lexically complete by Spec.Ident.okText)",
@@ -29,12 +66,15 @@ TRUSTED = [
     "close delimiter, '' in literals, backslash escapes on MySQL) and Spec.Ident.shape as the grammar of each statement",
     "bare non-ASCII letters other than U+0130/U+212A are taken to denote themselves (SQLAlchemy leaves U+0131/U+017F unquoted)",
     "the reserved-word predicate is the live preparer's (passed per case for the names of that case)",
+    "SQLAlchemy's LEGAL_CHARACTERS regex ends in '$', which also matches before one trailing newline: a name such as 'abc\\n' is left "
+    "unquoted by SQLAlchemy (not Alembic's code); the model mirrors this (Model.Ident.legalChars), the theorems exclude names ending "
+    "in a newline, and the generator does not produce them",
 ]
 RULE = (
     "op template (Operations.rename_table/add_column/drop_column/alter_column variants/drop_constraint, 19 templates) x dialect "
     "(sqlite, postgresql, mysql, mariadb, mssql, oracle) x schema kind (none, plain, needs-quoting, dotted, quoted_name) x identifier "
-    "class per name slot (plain, reserved, mixed case, space, dialect quote char, single quote, non-ASCII, digit/_/$ initial, edge; "
-    "plus %, TAB, trailing-newline): exhaustive over the class product, random inside a class; a case is non-trivial when at least one "
+    "class per name slot (main stream: plain, reserved, mixed case, space, dialect quote char, single quote, non-ASCII, digit/_/$ "
+    "initial, edge; separate extra-classes stream: names containing % or TAB): exhaustive over the class product, random inside a class; a case is non-trivial when at least one "
     "name needs quoting or a schema is given; distinct by emitted text"
 )
 ASSUMPTIONS = [
@@ -113,8 +153,6 @@ def name_class_flags(names, close_q):
             s.add("percent")
         if "\t" in n:
             s.add("tab")
-        if n.endswith("\n"):
-            s.add("nl")
         if close_q in n:
             s.add("qchar")
     return sorted(s)
@@ -216,14 +254,17 @@ def run(ctx, rng_name="main", scale=1):
     pending = []
     plan = []
     if ctx.thorough:
-        plan.append((G.CLASSES + G.EXTRA_CLASSES, G.SCHEMA_KINDS, 1 * scale))
+        plan.append(("main", G.CLASSES, G.SCHEMA_KINDS, 2 * scale))
+        plan.append(("extra", ["plain", "space", "qchar", "squote"] + G.EXTRA_CLASSES, G.SCHEMA_KINDS, 2 * scale))
     else:
-        # property's seven classes + initial-character/edge classes, product over all slots, three schema kinds
-        plan.append((G.CLASSES, ["none", "plain", "quoting"], 1 * scale))
-        # extra classes and extra schema kinds: pairwise against a reduced class set
-        plan.append((["plain", "qchar", "squote"] + G.EXTRA_CLASSES, ["none", "dotted", "qn"], 1 * scale))
-    for classes, sks, reps in plan:
+        # main stream: the property's seven classes + initial-character/edge classes, product over all name slots
+        plan.append(("main", G.CLASSES, ["none", "plain", "quoting"], 1 * scale))
+        # extra-classes stream (% and TAB: outside the property's list) and the extra schema kinds, against a reduced class set
+        plan.append(("extra", ["plain", "qchar", "squote"] + G.EXTRA_CLASSES, ["none", "dotted", "qn"], 1 * scale))
+    for stream, classes, sks, reps in plan:
         for d, desc, meta in gen_cases(ctx, rng, classes, sks, reps):
+            meta["stream"] = stream
+            ctx.hist("stream", stream)
             ctx.hist("dialect", d)
             ctx.hist("template", meta["template"])
             ctx.hist("schema_kind", meta["schema_kind"])
@@ -277,8 +318,6 @@ def classify(failure):
         return "F7"
     if d in ("postgresql", "mysql", "mariadb") and any("%" in n for n in allnames) and "%%" in emitted:
         return "C14-PERCENT"
-    if any(re.fullmatch(r"[A-Za-z0-9_$ıſ]+\n", n) for n in allnames):
-        return "C14-NL"
     return None
 
 
